@@ -209,6 +209,23 @@ def c08_cases(tier):
         os.remove(missing)
     ok = {"schema_path": good_s, "query_path": good_q, "options": {"mode": "cli"}}
     bad = {"schema_path": good_s, "query_path": missing, "options": {"mode": "cli"}}
+    # different files with the same base name in different directories (the cache key is the whole path)
+    for sub, ty in (("c08_a", "String"), ("c08_b", "Int")):
+        os.makedirs(os.path.join(d, sub), exist_ok=True)
+        open(os.path.join(d, sub, "schema.graphql"), "w").write("type Query { answer: %s }" % ty)
+        open(os.path.join(d, sub, "query.graphql"), "w").write("query Q { answer }")
+    in_a = {"schema_path": os.path.join(d, "c08_a", "schema.graphql"), "query_path": os.path.join(d, "c08_a", "query.graphql"), "options": {"mode": "cli"}}
+    in_b = {"schema_path": os.path.join(d, "c08_b", "schema.graphql"), "query_path": os.path.join(d, "c08_b", "query.graphql"), "options": {"mode": "cli"}}
+    for hist in ([in_a, in_b], [in_b, in_a]):
+        def oracle2(res, hist=hist):
+            if res["exit"] != 0 or not res["out"]:
+                return "process died: %s" % res["stderr"]
+            later = res["out"]["results"][1]
+            alone = run_case({"calls": [hist[1]]})
+            if not alone["out"] or not later.get("ok") or later.get("tokens") != alone["out"]["results"][0].get("tokens"):
+                return "a call issued after a call on a different file with the same base name differs from the same call in a fresh process"
+            return None
+        yield {"calls": hist}, oracle2
     for hist in ([ok, bad, ok], [bad, ok], [ok, ok], [bad, bad, ok]):
         case = {"calls": hist}
 
